@@ -505,7 +505,11 @@ func (f *SexpFloat) SexpString(ps *PrintState) string {
 	if f.Scientific {
 		return strconv.FormatFloat(f.Val, 'e', -1, SexpFloatSize)
 	}
-	return strconv.FormatFloat(f.Val, 'f', -1, SexpFloatSize)
+	s := strconv.FormatFloat(f.Val, 'f', -1, SexpFloatSize)
+	if !strings.ContainsAny(s, ".IN") {
+		s += ".0" // digits only would read back as an integer (or overflow int64)
+	}
+	return s
 }
 
 func (c *SexpChar) SexpString(ps *PrintState) string {
